@@ -336,6 +336,12 @@ func checkC18(c *run.Ctx) {
 		if kid != "" {
 			_ = k.Set(jwk.KeyIDKey, kid)
 		}
+		switch r.IntN(6) { // the intended-use member is not part of key selection or validation
+		case 0:
+			_ = k.Set(jwk.KeyUsageKey, "enc")
+		case 1:
+			_ = k.Set(jwk.KeyUsageKey, "sig")
+		}
 		return member{k, kid, valid}
 	}
 	nfiles := c.N(120, 1500)
